@@ -3,7 +3,7 @@
 From Coq Require Import List Arith Bool.
 Import ListNotations.
 Require Import TL.Model.Core TL.Model.CoreTables TL.Model.Build TL.Proofs.CoreMono TL.Proofs.BuildLemmas
-  TL.Proofs.BuildSemLemmas TL.Props.C05.
+  TL.Proofs.BuildSemLemmas TL.Proofs.BuildComplete TL.Props.C05.
 
 (* Building terminates and succeeds for every environment -- classes AND alias objects (E n = NType v: recursive
    `type N = ...` statements and string-valued TypeAliasType objects), cyclic or not: the factory loop is a
@@ -71,6 +71,24 @@ Theorem C07_all_depths :
 Proof. intros rt E noop_leaf orders Hu Hm Lu Lm T fuel x. split.
   - exact (C05_unmarshal rt E noop_leaf orders Hu Lu T fuel x).
   - exact (C05_marshal rt E noop_leaf orders Hm Lm T fuel x). Qed.
+
+(* ... without any "the mechanism terminates" premise: whenever the REFERENCE semantics gives a value or an exception
+   for a value of whatever depth, the mechanism gives the same for all sufficiently large fuel (C05_unmarshal_complete /
+   C05_marshal_complete: every lazy proxy met on the way down is resolved through the factory in finitely many steps;
+   orders_strict: static_order(t) ends in t's own expanded node and whatever it defers has an order) *)
+Theorem C07_all_depths_complete :
+  forall (rt : runtime) (E : env) (noop_leaf : nat -> bool) (orders : ty -> option (list node)),
+    orders_contract E true noop_leaf orders -> orders_contract E false noop_leaf orders -> orders_strict orders ->
+    (forall s x, noop_leaf s = true -> leaf_u rt s x = Ok x) ->
+    (forall s x, noop_leaf s = true -> leaf_m rt s x = Ok x) ->
+    forall (T : ty) (n : nat) (x : pv), defd orders T = true ->
+      (done (unm rt E n T x) = true ->
+         exists N, forall fuel, fuel >= N -> api_call rt E orders true fuel T x = unm rt E n T x) /\
+      (done (mar rt E n T x) = true ->
+         exists N, forall fuel, fuel >= N -> api_call rt E orders false fuel T x = mar rt E n T x).
+Proof. intros rt E noop_leaf orders Hu Hm Hs Lu Lm T n x Hdef. split.
+  - exact (C05_unmarshal_complete rt E noop_leaf orders Hu Hs Lu T n x Hdef).
+  - exact (C05_marshal_complete rt E noop_leaf orders Hm Hs Lm T n x Hdef). Qed.
 
 (* non-vacuity: class N0 { kids: list[N0]; val: Optional[int] } with root list[N0], the order observed
    on the implementation, and a toy runtime; a value of depth 3 is converted at every level *)
@@ -145,6 +163,21 @@ Example C07_json_all_depths : forall (fuel : nat) (x : pv),
   done (api_call aRt jE jOrders true fuel (TName 5) x) = true ->
   exists m, forall m', m' >= m -> unm aRt jE m' (TName 5) x = api_call aRt jE jOrders true fuel (TName 5) x.
 Proof. intros fuel x. apply (C07_all_depths aRt jE (fun _ => false) jOrders (C07_json_contract true) (C07_json_contract false)); discriminate. Qed.
+
+(* ... and C07_all_depths_complete: the two observed orders are strict and closed, so whenever the reference semantics
+   terminates on a Json value the mechanism does, with the same result *)
+Example C07_json_strict : orders_strict jOrders /\ defd jOrders (TName 5) = true.
+Proof. split; [|reflexivity]. intros t ns H. unfold jOrders in H.
+  destruct (ty_eqb t (TName 5)) eqn:E1.
+  - apply ty_eqb_eq in E1. subst t. injection H as <-. exists [], (jNode false). repeat split; reflexivity.
+  - destruct (ty_eqb t jBody) eqn:E2; [|discriminate H]. apply ty_eqb_eq in E2. subst t. injection H as <-.
+    exists jPre, (plain jBody). repeat split; reflexivity. Qed.
+Example C07_json_complete : forall (n : nat) (x : pv),
+  done (unm aRt jE n (TName 5) x) = true ->
+  exists N, forall fuel, fuel >= N -> api_call aRt jE jOrders true fuel (TName 5) x = unm aRt jE n (TName 5) x.
+Proof. intros n x.
+  apply (C07_all_depths_complete aRt jE (fun _ => false) jOrders (C07_json_contract true) (C07_json_contract false)
+           (proj1 C07_json_strict)); [discriminate|discriminate|exact (proj2 C07_json_strict)]. Qed.
 
 (* (2) class / alias mutual recursion:  A = TypeAliasType("A", "list[C] | None")  (N6);  class C: v: int; a: A  (N2) *)
 Definition aBody : ty := TUnion [TSeq KList (TName 2); TNone].
@@ -234,5 +267,6 @@ Proof. vm_compute. repeat split. Qed.
 
 Print Assumptions C07_build_total.
 Print Assumptions C07_string_alias_lazy.
+Print Assumptions C07_all_depths_complete.
 Print Assumptions C07_no_raw_level.
 Print Assumptions C07_all_depths.
